@@ -12,6 +12,7 @@ import Inkayaku.Props.Translated.MoveBits
 import Inkayaku.Props.Translated.Check
 import Inkayaku.Props.Translated.ZobristXor
 import Inkayaku.Props.Translated.MakeUnmake
+import Inkayaku.Props.Translated.Generated
 /-! Umbrella module: the equivalence theorems between the Rust functions translated on every run (`Gen/Rs/*.lean`, by
 `/verif/translator`) and the hand-written model live in `Props/Translated/*.lean`, one file per Rust source / topic.
 The first ten targets are listed in `Props/Translated/Basic.lean`; round 2 added:
@@ -24,5 +25,8 @@ The first ten targets are listed in `Props/Translated/Basic.lean`; round 2 added
 | `Bitboard::{is_valid, is_current_in_check, is_in_check, _is_in_check_by_bits, _is_square_in_check}`, `PlayerState::{kings, …, full_occupancy}`, `opposite_color` | `Bitboard.is_valid` … (`Check`) | `Board.isValid`, `isCurrentInCheck`, `inCheck`, `squareInCheck` | `rs_is_square_in_check_eq`, `rs_is_in_check_by_bits_eq`, `rs_is_current_in_check_eq`, `rs_is_in_check_eq`, `rs_is_valid_eq` (`Check.lean`) |
 | `Bitboard::zobrist_xor`                                         | `Bitboard.zobrist_xor` (`ZobristXor`)              | `Zobrist.xorOf`                    | `rs_zobrist_xor_eq`, `rs_zobrist_xor_move` (`ZobristXor.lean`) |
 | `Bitboard::{make, unmake, make_castle, unmake_castle}`, `get_active_and_passive_mut`, `PlayerState::{occupancy_ref, kings_ref, rooks_ref, pawns_ref}` | `Bitboard.make`, `.unmake`, `.make_castle` … (`MakeUnmake`) | `Board.makeF`, `unmakeF` (`make`, `unmake`) | `rs_make_eq`, `rs_unmake_eq`, `rs_make_move_eq`, `rs_unmake_move_eq`, `rs_make_castle_eq` (`MakeUnmake.lean`) |
+
+`Props/Translated/Generated.lean` discharges the panic hypotheses of `rs_make_eq`, `rs_unmake_eq`, `rs_zobrist_xor_eq` for every move
+the generator emits on a `WF.wf` board: `rs_make_generated`, `rs_unmake_generated`, `rs_zobrist_xor_generated`, `rs_is_valid_after_make`.
 
 Mutation sanity check of all of these: `/verif/translator/mutation_check.sh`. -/
